@@ -8,7 +8,19 @@
    (lead, signature header with region entry, padding, main header, payload) and [pkg_ok] says
    when a description is well formed: lead version 3 or 4, strings without NUL, a non-empty MD5,
    signature packets with a supported algorithm and hash, 64-bit issuer, MPIs below 8 KiB,
-   header stores within go-rpm's 32 MiB limit, and enough payload to cover the header padding. *)
+   header stores within go-rpm's 32 MiB limit, and enough payload to cover the header padding.
+
+   Part 5 of the model widens the quantifier: [gpkg] is a package whose two header structures are
+   ARBITRARY index declarations (tag, type, offset, count) over ARBITRARY stores, [gencode] its
+   bytes, and [gpkg_ok] the boolean well-formedness predicate on (index, store): every entry's
+   data starts inside the store and lies inside it with the count and type it declares (NULL;
+   CHAR/INT8/INT16/INT32/INT64/BIN: count items; STRING/STRING_ARRAY/I18NSTRING: count
+   NUL-terminated strings) - any order of tags and offsets, gaps, shared data, alignment padding,
+   region entry anywhere or absent, unknown tags, repeated tags.  [gsig] is a signature packet in
+   any header form of RFC 4880 4.2 (old format with 1/2/4-octet or indeterminate length, new
+   format with 1/2/5-octet or partial body lengths), version 2/3 or 4, with arbitrary lists of
+   hashed and unhashed subpackets (1/2/5-octet subpacket lengths, critical bits) that respect
+   the body lengths of RFC 4880 5.2.3.x. *)
 From WI Require Import Lib.Base Lib.Info Model.Rpm Proofs.Rpm.
 Open Scope N_scope.
 
@@ -35,6 +47,86 @@ Print Assumptions C19_sig_roundtrip.
 Theorem C19_faithful : forall other p, pkg_ok p = true -> describe other (encode p) = Ok (report p).
 Proof. exact describe_encode. Qed.
 Print Assumptions C19_faithful.
+
+(* ---------------------------------------------------------------- arbitrary layouts *)
+
+(* go-rpm returns, for EVERY well-formed layout, the lead version and, per header, every declared
+   entry with the typed value that lies at its declared offset ([gview]: [gent_value]) *)
+Theorem C19_roundtrip_layout : forall g, gpkg_ok g = true -> read_package_file (gencode g) = Ok (gview g).
+Proof. exact parse_gencode. Qed.
+Print Assumptions C19_roundtrip_layout.
+
+(* rpmCheckIndex rejects no well-formed layout *)
+Theorem C19_checked_index_complete_layout : forall g, gpkg_ok g = true -> check_index (gencode g) = Ok tt.
+Proof. exact check_index_gencode. Qed.
+Print Assumptions C19_checked_index_complete_layout.
+
+(* packet.Read on a signature packet of any header form, version and subpacket arrangement
+   returns the stored algorithm and hash and the stored issuer: the fixed field of a version 3
+   packet; for version 4 the LAST issuer subpacket (hashed area first), none when the packet
+   has no issuer subpacket (for instance only an issuer fingerprint, type 33) *)
+Theorem C19_sig_roundtrip_forms : forall other s, gsig_ok s = true ->
+  packet_read other (gencode_sig s) =
+  Ok (if gs_version s <? 4 then PSig3 (gs_algo s) (gs_hash s) (gs_issuer s)
+      else PSig4 (gs_sigtype s) (gs_algo s) (gs_hash s)
+                 (fold_left sub_issuer (gs_hashed s ++ gs_unhashed s) None)).
+Proof.
+  intros other s H. rewrite (packet_read_gencode other s H). unfold gsig_view, gsig_issuer.
+  destruct (gs_version s <? 4); reflexivity.
+Qed.
+Print Assumptions C19_sig_roundtrip_forms.
+
+(* RPMFile on EVERY well-formed layout whose four signature tags hold nothing or a well-formed
+   signature packet ([gsigs_ok]) reports exactly [greport g sg] (Model/Rpm.v, written from the
+   property): "RPM (version V)" / Name / Version / Release / Architecture = the first string of the
+   first main-header entry that carries the tag (empty when that entry is not of a string type);
+   MD5 = lower-case hex of the octets of the first signature-header entry with tag 1004, SHA-1 and
+   SHA-256 = the first string under 269 / 273, each iff non-empty; per signature tag that holds
+   octets, in the order DSA, RSA, GPG, PGP, an entry with Algorithm = <public-key algorithm>/<hash>
+   and, iff the packet stores an issuer, Key id = its 16 hex digits; "Signature: none" iff there is
+   no such entry *)
+Theorem C19_faithful_layout : forall other g sg, gpkg_ok g = true -> gsigs_ok g sg = true ->
+  describe other (gencode g) = Ok (greport g sg).
+Proof. exact describe_gencode. Qed.
+Print Assumptions C19_faithful_layout.
+
+(* the same without any hypothesis on what the signature tags hold: identity and digests are
+   reported as stored, and each signature tag that holds octets gets one entry with whatever
+   attributes rpmSignatureAttributes shows for those octets *)
+Theorem C19_faithful_layout_any_signature : forall other sa g, gpkg_ok g = true ->
+  (forall tag, In tag [267; 268; 1005; 1002] -> stored_bytes (gp_sig g) tag <> [] ->
+     sig_attrs cfg_now other (stored_bytes (gp_sig g) tag) = Ok (sa tag)) ->
+  describe other (gencode g) = Ok (greport_with sa g).
+Proof. exact describe_gencode_with. Qed.
+Print Assumptions C19_faithful_layout_any_signature.
+
+(* a well-formed layout is reported as unsigned iff none of the four signature tags holds octets *)
+Theorem C19_unsigned_layout : forall other g sg, gpkg_ok g = true -> gsigs_ok g sg = true ->
+  exists i, describe other (gencode g) = Ok i /\
+    (In (bs "Signature", bs "none") (i_attrs i) <->
+       (stored_bytes (gp_sig g) 267 = [] /\ stored_bytes (gp_sig g) 268 = [] /\
+        stored_bytes (gp_sig g) 1005 = [] /\ stored_bytes (gp_sig g) 1002 = [])).
+Proof. exact unsigned_layout. Qed.
+Print Assumptions C19_unsigned_layout.
+
+(* non-vacuity: a layout with no region entry in the signature header, a region trailer near the
+   end of the main store, entries of all ten types, unordered and overlapping offsets, gaps, a
+   repeated tag, store lengths that are not multiples of 8; a v3 packet with an old-format
+   header, a v4 packet in partial body lengths with three issuer subpackets, a v4 packet with
+   only an issuer fingerprint (no "Key id" line) *)
+Example C19_example_layout_ok : gpkg_ok ex_gpkg = true /\ gsigs_ok ex_gpkg ex_gsigs = true.
+Proof. exact ex_gpkg_ok. Qed.
+
+Example C19_example_layout_report :
+  describe no_other (gencode ex_gpkg) =
+  Ok (Info (bs "RPM")
+        [(bs "Name", bs "dummy"); (bs "Version", bs "0.0.1"); (bs "Release", bs "1"); (bs "Architecture", bs "noarch");
+         (bs "MD5", bs "0102030405060708090a0b0c0d0e0f10");
+         (bs "SHA-1", bs "00112233445566778899aabbccddeeff00112233")]
+        [Info (bs "Signature") [(bs "Algorithm", bs "EdDSA/SHA-512"); (bs "Key id", bs "0123456789ABCDEF")] [];
+         Info (bs "Signature") [(bs "Algorithm", bs "RSA/SHA-256")] [];
+         Info (bs "Legacy signature (RPM v3)") [(bs "Algorithm", bs "DSA/SHA-1"); (bs "Key id", bs "00000000000000CF")] []]).
+Proof. exact ex_gpkg_report. Qed.
 
 (* the issuer is printed with all 16 hex digits and reads back as the stored 64-bit key ID *)
 Theorem C19_keyid : forall k, k < 2 ^ 64 -> length (fmt_keyid k) = 16%nat /\ of_hex (fmt_keyid k) = k.
@@ -90,7 +182,7 @@ Proof. exact check_index_encode. Qed.
 Print Assumptions C19_checked_index_complete.
 
 (* the fuel of the signature parser (termination of the subpacket loops) is never exhausted *)
-Theorem C19_fuel : forall content, parse_sig4 (length content) content <> Err "fuel".
+Theorem C19_fuel : forall emb content, parse_sig4 (length content) emb content <> Err "fuel".
 Proof. exact parse_sig4_fuel. Qed.
 Print Assumptions C19_fuel.
 
